@@ -129,7 +129,10 @@ struct Impl : Base {
   void merge(Base& other, bool mv) override {
     auto* o = dynamic_cast<Impl<T, K>*>(&other);
     if (!o) throw std::invalid_argument("harness: incompatible sketch types");
-    if (mv) sk.merge(std::move(o->sk)); else sk.merge(static_cast<const S&>(o->sk));
+    // by reference: alternately through a NON-const and a const lvalue (the forwarding-reference merge instantiates differently
+    // for the two; neither may touch its source, which the histories go on using)
+    static unsigned n_ref = 0;
+    if (mv) sk.merge(std::move(o->sk)); else if (++n_ref % 2) sk.merge(o->sk); else sk.merge(static_cast<const S&>(o->sk));
   }
   std::string query(const std::vector<std::string>& w, size_t from) const override {
     const T e = sk.get_estimate(coords(w, from));
